@@ -111,7 +111,9 @@ def run_case(case):
             ref = out.get("float64")
             if ref is None or not np.all(np.isfinite(ref)):
                 continue
-            scale = max(float(np.max(np.abs(ref))), 1e-300)
+            # data are O(1): a tensor below 1e-2 in every entry is compared on the absolute scale of the data (a tensor whose terms
+            # all vanish is rounding noise of the narrower type, which is not a disagreement between the types)
+            scale = max(float(np.max(np.abs(ref))), 1e-2)
             for a, b_ in itertools.combinations(sorted(out), 2):
                 narrow = max(H.EPS[a], H.EPS[b_])
                 # single precision: inputs are rounded to float32 before the kernel sees them -> conditioning
